@@ -41,6 +41,7 @@ type stepEval struct {
 	Walk      []span // selected ranges in (match, configured group) order, unmatched skipped
 	Union     []span
 	LastUnset bool // last configured group of the last match did not participate
+	Maybe     bool // the value seen by this step is not determined: it may or may not apply
 }
 
 type leafEval struct {
@@ -61,9 +62,13 @@ type eventExpect struct {
 	Wild         map[*jnode]*leafEval // leaves without exact expectation
 	Leaves       []*leafEval
 	LeafOf       map[*jnode]*leafEval
-	AppliedCount []int // per mask: number of leaves it was applied to
-	Applications int   // total (leaf, mask) applications
+	AppliedCount []int // per mask: number of leaves it was certainly applied to
+	Applications int   // total (leaf, mask) applications (certain)
 	Any          bool
+	// upper bounds: additionally counts the (leaf, mask) pairs that come after
+	// an overlapping selection without exact expectation on the same leaf
+	AppliedMax      []int
+	ApplicationsMax int
 }
 
 type compiledMask struct {
@@ -190,8 +195,17 @@ func (m *model) shadowed(i int, path []string) bool {
 		add(m.maskIgnore[j], j == i && kind == "mask-ignore")
 		add(m.maskProcess[j], j == i && kind == "mask-process")
 	}
-	add(m.globalIgnore, kind == "global-ignore")
-	add(m.globalProcess, kind == "global-process")
+	// the plugin-level lists count only when some mask is governed by them
+	globalInUse := false
+	for j := range m.masks {
+		if _, k := m.governing(j); k == "global-ignore" || k == "global-process" {
+			globalInUse = true
+		}
+	}
+	if globalInUse {
+		add(m.globalIgnore, kind == "global-ignore")
+		add(m.globalProcess, kind == "global-process")
+	}
 	for _, e := range list {
 		if !hasPrefixPath(e, path) || len(e) == len(path) {
 			continue
@@ -440,6 +454,7 @@ func (m *model) evalLeaf(path []string, kind byte, orig string, v variant) *leaf
 		return le
 	}
 	run := orig
+	weakIdx := -1
 	for i := range m.masks {
 		cm := &m.masks[i]
 		st := stepEval{Mask: i, In: run, Out: run, Exact: true}
@@ -465,6 +480,7 @@ func (m *model) evalLeaf(path []string, kind byte, orig string, v variant) *leaf
 		if le.Undefined {
 			// value is not determined any more; nothing can be said about this step
 			st.Exact = false
+			st.Maybe = true
 			le.Steps = append(le.Steps, st)
 			continue
 		}
@@ -504,21 +520,17 @@ func (m *model) evalLeaf(path []string, kind byte, orig string, v variant) *leaf
 		}
 		le.Steps = append(le.Steps, st)
 		if !st.Exact {
-			le.WeakStep = &le.Steps[len(le.Steps)-1]
+			weakIdx = len(le.Steps) - 1
 		}
 	}
 	le.Final = run
 	if le.Undefined {
 		// is the undefined step the last one that may rewrite the leaf?
 		le.WeakLast = true
-		seen := false
+		le.WeakStep = &le.Steps[weakIdx]
 		for k := range le.Steps {
 			s := &le.Steps[k]
-			if s == le.WeakStep {
-				seen = true
-				continue
-			}
-			if seen && s.Selected && m.masks[s.Mask].re != nil && len(m.masks[s.Mask].groups) > 0 {
+			if k > weakIdx && s.Selected && m.masks[s.Mask].re != nil && len(m.masks[s.Mask].groups) > 0 {
 				le.WeakLast = false
 			}
 		}
@@ -533,7 +545,7 @@ func isJSONNumber(s string) bool {
 
 // expect computes the expected event for one input document.
 func (m *model) expect(in *jnode, v variant) *eventExpect {
-	ex := &eventExpect{Tree: in.clone(), NumOrStr: map[*jnode]bool{}, Wild: map[*jnode]*leafEval{}, LeafOf: map[*jnode]*leafEval{}, AppliedCount: make([]int, len(m.masks))}
+	ex := &eventExpect{Tree: in.clone(), NumOrStr: map[*jnode]bool{}, Wild: map[*jnode]*leafEval{}, LeafOf: map[*jnode]*leafEval{}, AppliedCount: make([]int, len(m.masks)), AppliedMax: make([]int, len(m.masks))}
 	var leaves []leaf
 	collectLeaves(ex.Tree, nil, &leaves)
 	for _, lf := range leaves {
@@ -545,6 +557,10 @@ func (m *model) expect(in *jnode, v variant) *eventExpect {
 				ex.AppliedCount[st.Mask]++
 				ex.Applications++
 				ex.Any = true
+			}
+			if st.Applied || st.Maybe {
+				ex.AppliedMax[st.Mask]++
+				ex.ApplicationsMax++
 			}
 		}
 		if le.Undefined {
